@@ -1,0 +1,174 @@
+//go:build verif
+
+package cache
+
+// Contracts for the deductive verifier in /verif (gvc). Comment-only; compiled only with -tags verif.
+//
+// View of the expiring cache: the map c.items : K -> *Item with Item.object and Item.expiration (init-only).
+// An entry is live at clock value t iff its expiration is not positive or t <= expiration.
+// `now` is the ghost clock (never decreases); old(now) is its value at entry.
+
+//@ pred cacheInv(c *Cache) := c.cache != nil && c.items != nil && forall k K :: { c.items[k] } k in c.items ==> c.items[k] != nil
+//@ pred icacheInv(c *cache) := c.items != nil && forall k K :: { c.items[k] } k in c.items ==> c.items[k] != nil
+//@ pred others(c *Cache, key K) := forall k K :: { c.items[k] } k != key ==> ((k in c.items) <==> old(k in c.items)) && c.items[k] == old(c.items[k])
+//@ pred sameMap(c *Cache) := forall k K :: { c.items[k] } ((k in c.items) <==> old(k in c.items)) && c.items[k] == old(c.items[k])
+
+//@ func (*cache.Item).Val
+//@   property C08 C17 C18
+//@   opt nil-receiver
+//@   ensures it != nil ==> result == it.object
+//@   ensures it == nil ==> result == zero
+
+//@ func (*cache.Cache).Get
+//@   property C08 C01 C02
+//@   lock c.mu : none
+//@   requires cacheInv(c)
+//@   ensures now >= old(now)
+//@   ensures !(key in c.items) ==> result0 == nil && result1 != nil
+//@   ensures key in c.items && c.items[key].expiration <= 0 ==> result0 == c.items[key] && result1 == nil
+//@   ensures key in c.items && c.items[key].expiration > 0 && now <= c.items[key].expiration ==> result0 == c.items[key] && result1 == nil
+//@   ensures key in c.items && c.items[key].expiration > 0 && old(now) > c.items[key].expiration ==> result0 == nil && result1 != nil
+//@   ensures (result0 == nil <==> result1 != nil) && (result0 != nil ==> key in c.items && result0 == c.items[key])
+
+//@ func (*cache.Cache).add
+//@   property C08 C01 C02
+//@   lock c.mu : none
+//@   requires cacheInv(c)
+//@   modifies map(c.items)
+//@   ensures cacheInv(c) && others(c, key) && now >= old(now)
+//@   ensures isEmptyString(val) ==> result != nil && sameMap(c)
+//@   ensures !isEmptyString(val) ==> result == nil && key in c.items && fresh(c.items[key]) && c.items[key].object == val
+//@   ensures !isEmptyString(val) && (d > 0 || (d == 0 && c.expTime > 0)) ==> old(now) + (d == 0 ? c.expTime : d) <= c.items[key].expiration && c.items[key].expiration <= now + (d == 0 ? c.expTime : d)
+//@   ensures !isEmptyString(val) && !(d > 0 || (d == 0 && c.expTime > 0)) ==> c.items[key].expiration <= 0
+
+//@ func (*cache.Cache).Set
+//@   property C08 C01 C02
+//@   lock c.mu : none
+//@   requires cacheInv(c)
+//@   modifies map(c.items)
+//@   ensures cacheInv(c) && others(c, key) && now >= old(now)
+//@   ensures old(key in c.items) && (old(c.items[key].expiration) <= 0 || now <= old(c.items[key].expiration)) ==> result != nil && sameMap(c)
+//@   ensures (!old(key in c.items) || (old(c.items[key].expiration) > 0 && old(now) > old(c.items[key].expiration))) && isEmptyString(val) ==> result != nil && sameMap(c)
+//@   ensures (!old(key in c.items) || (old(c.items[key].expiration) > 0 && old(now) > old(c.items[key].expiration))) && !isEmptyString(val) ==> result == nil && key in c.items && c.items[key].object == val
+//@   ensures result == nil ==> key in c.items && c.items[key].object == val && fresh(c.items[key])
+//@   ensures result == nil && (d > 0 || (d == 0 && c.expTime > 0)) ==> old(now) + (d == 0 ? c.expTime : d) <= c.items[key].expiration && c.items[key].expiration <= now + (d == 0 ? c.expTime : d)
+//@   ensures result == nil && !(d > 0 || (d == 0 && c.expTime > 0)) ==> c.items[key].expiration <= 0
+//@   ensures result != nil ==> sameMap(c)
+
+//@ func (*cache.Cache).SetDefault
+//@   property C08 C01
+//@   lock c.mu : none
+//@   requires cacheInv(c)
+//@   modifies map(c.items)
+//@   ensures cacheInv(c) && others(c, key)
+//@   ensures result != nil ==> sameMap(c)
+//@   ensures result == nil ==> key in c.items && c.items[key].object == val && (c.expTime > 0 ==> old(now) + c.expTime <= c.items[key].expiration && c.items[key].expiration <= now + c.expTime) && (c.expTime <= 0 ==> c.items[key].expiration <= 0)
+
+//@ func (*cache.Cache).Update
+//@   property C08 C01 C02
+//@   lock c.mu : none
+//@   requires cacheInv(c)
+//@   modifies map(c.items)
+//@   ensures cacheInv(c) && others(c, key) && now >= old(now)
+//@   ensures isEmptyString(val) ==> result != nil && sameMap(c)
+//@   ensures !isEmptyString(val) ==> result == nil && key in c.items && c.items[key].object == val
+//@   ensures !isEmptyString(val) && (d > 0 || (d == 0 && c.expTime > 0)) ==> old(now) + (d == 0 ? c.expTime : d) <= c.items[key].expiration && c.items[key].expiration <= now + (d == 0 ? c.expTime : d)
+//@   ensures !isEmptyString(val) && !(d > 0 || (d == 0 && c.expTime > 0)) ==> c.items[key].expiration <= 0
+
+//@ func (*cache.cache).delete
+//@   property C08 C01
+//@   lock c.mu : W
+//@   requires c.items != nil
+//@   modifies map(c.items)
+//@   ensures old(key in c.items) ==> result == nil
+//@   ensures !old(key in c.items) ==> result != nil
+//@   ensures !(key in c.items) && forall k K :: { c.items[k] } k != key ==> ((k in c.items) <==> old(k in c.items)) && c.items[k] == old(c.items[k])
+//@   ensures len(c.items) == old(len(c.items)) - (old(key in c.items) ? 1 : 0)
+
+//@ func (*cache.Cache).Delete
+//@   property C08 C01 C02
+//@   lock c.mu : none
+//@   requires cacheInv(c)
+//@   modifies map(c.items)
+//@   ensures cacheInv(c) && others(c, key) && !(key in c.items)
+//@   ensures old(key in c.items) ==> result == nil
+//@   ensures !old(key in c.items) ==> result != nil
+
+//@ func (*cache.Cache).Flush
+//@   property C08 C01
+//@   lock c.mu : none
+//@   requires c.cache != nil
+//@   modifies c.items
+//@   ensures cacheInv(c) && fresh(c.items) && len(c.items) == 0 && forall k K :: !(k in c.items)
+
+//@ func (*cache.Cache).List
+//@   property C08 C01
+//@   lock c.mu : none
+//@   requires c.cache != nil
+//@   ensures result == c.items
+
+//@ func (*cache.Cache).Count
+//@   property C08 C01 C02
+//@   lock c.mu : none
+//@   requires c.cache != nil
+//@   ensures result == len(c.items)
+
+//@ func (*cache.cache).DeleteExpired
+//@   property C08 C01
+//@   lock c.mu : none
+//@   requires icacheInv(c)
+//@   ghost tnow int
+//@   ghost-at UnixNano#1: tnow = $ret
+//@   modifies map(c.items)
+//@   ensures icacheInv(c) && old(now) <= tnow && tnow <= now
+//@   ensures forall k K :: { c.items[k] } (k in c.items <==> (old(k in c.items) && !(old(c.items[k].expiration) > 0 && tnow > old(c.items[k].expiration)))) && (k in c.items ==> c.items[k] == old(c.items[k]))
+//@ loop 1
+//@   invariant c.items != nil && c.items == old(c.items) && old(now) <= tnow && tnow <= now
+//@   invariant forall k K :: { c.items[k] } (k in c.items <==> (old(k in c.items) && !(k in $visited && old(c.items[k].expiration) > 0 && tnow > old(c.items[k].expiration)))) && (k in c.items ==> c.items[k] == old(c.items[k]))
+//@   invariant forall k K :: k in $visited ==> old(k in c.items)
+
+//@ func (*cache.Cache).MapToCache
+//@   property C08 C01
+//@   lock c.mu : none
+//@   requires cacheInv(c)
+//@   ghost bad bool = false
+//@   ghost-at Set#1: bad = bad || $ret != nil
+//@   modifies map(c.items)
+//@   ensures cacheInv(c)
+//@   ensures bad ==> result != nil
+//@   ensures !bad ==> result == nil
+//@   ensures forall k K :: { c.items[k] } !(k in m) ==> ((k in c.items) <==> old(k in c.items)) && c.items[k] == old(c.items[k])
+//@   ensures forall k K :: { c.items[k] } k in m && !old(k in c.items) && !isEmptyString(m[k]) ==> k in c.items && c.items[k].object == m[k]
+//@ loop 1
+//@   invariant cacheInv(c) && c.cache == old(c.cache) && c.items == old(c.items)
+//@   invariant bad ==> err != nil
+//@   invariant !bad ==> err == nil
+//@   invariant forall k K :: { c.items[k] } !(k in $visited) ==> ((k in c.items) <==> old(k in c.items)) && c.items[k] == old(c.items[k])
+//@   invariant forall k K :: { c.items[k] } k in $visited && !old(k in c.items) && !isEmptyString(m[k]) ==> k in c.items && c.items[k].object == m[k]
+//@   invariant forall k K :: k in $visited ==> k in m
+
+//@ func (*cache.Cache).IsExpired
+//@   property C08 C01
+//@   lock c.mu : none
+//@   requires cacheInv(c)
+//@   ensures key in c.items && c.items[key].expiration > 0 && old(now) > c.items[key].expiration ==> result
+//@   ensures result ==> key in c.items && c.items[key].expiration > 0 && now > c.items[key].expiration
+
+//@ func cache.newCache
+//@   property C08
+//@   ensures result != nil && fresh(result) && result.items == item && result.expTime == expTime && result.cleanupInt == cleanupInt
+
+//@ func cache.New
+//@   property C08 C01
+//@   ensures result != nil && fresh(result) && cacheInv(result) && fresh(result.cache) && len(result.items) == 0 && result.expTime == expTime && result.cleanupInt == cleanupTime
+//@   ensures gocount == old(gocount) + (cleanupTime > 0 ? 1 : 0)
+
+//@ func (*cache.cache).cleanup
+//@   property C08 C01
+//@   lock c.mu : none
+//@   requires icacheInv(c)
+//@   modifies map(c.items)
+//@ loop 1
+//@   invariant icacheInv(c) && c.items == old(c.items)
+//@   invariant forall k K :: { c.items[k] } old(k in c.items) && (old(c.items[k].expiration) <= 0 || now <= old(c.items[k].expiration)) ==> k in c.items && c.items[k] == old(c.items[k])
+//@   invariant forall k K :: { c.items[k] } k in c.items ==> old(k in c.items) && c.items[k] == old(c.items[k])
